@@ -61,43 +61,48 @@ Proof. induction l; simpl; [reflexivity|]. f_equal. exact IHl. Qed.
 Lemma pick_map {A} (f : A -> bool) (l : list A) : pick l (map f l) = filter f l.
 Proof. induction l; simpl; [reflexivity|]. destruct (f a); rewrite IHl; reflexivity. Qed.
 
+Definition sel_in cs tr (e : pexpr) (ev : event) : bool := check_in_range tr (ev_ts ev) && peval_in cs e ev.
 Definition sel tr (e : pexpr) (ev : event) : bool := check_in_range tr (ev_ts ev) && peval e ev.
 
-Lemma query_and_map tr a evs g :
-  query_and tr a evs (map g evs) = map (fun ev => g ev && (check_in_range tr (ev_ts ev) && impl_atom a ev)) evs.
-Proof. unfold query_and. apply map2_l_map. Qed.
+Lemma query_and_map cs tr a evs g :
+  query_and_in cs tr a evs (map g evs) = map (fun ev => g ev && (check_in_range tr (ev_ts ev) && impl_atom_in cs a ev)) evs.
+Proof. unfold query_and_in. apply map2_l_map. Qed.
 
-Lemma query_or_map tr a evs g :
-  query_or tr a evs (map g evs) =
-  map (fun ev => g ev || (negb (g ev) && (check_in_range tr (ev_ts ev) && impl_atom a ev))) evs.
-Proof. unfold query_or. apply map2_l_map. Qed.
+Lemma query_or_map cs tr a evs g :
+  query_or_in cs tr a evs (map g evs) =
+  map (fun ev => g ev || (negb (g ev) && (check_in_range tr (ev_ts ev) && impl_atom_in cs a ev))) evs.
+Proof. unfold query_or_in. apply map2_l_map. Qed.
 
 Ltac btaut := repeat match goal with |- context [?b] => match type of b with bool => is_var b; destruct b end end; reflexivity.
 
 (* the state machine (nested conditions first, leaf queries on the records still / not yet
    set, first search of an Or condition replaces, later ones are united) computes, for every
-   expression, the record-level evaluation restricted to the time range *)
-Theorem exec_pointwise tr e evs : exec tr e evs = map (sel tr e) evs.
+   expression and every list of candidate columns, the record-level evaluation restricted to
+   the time range *)
+Theorem exec_in_pointwise cs tr e evs : exec_in cs tr e evs = map (sel_in cs tr e) evs.
 Proof.
   induction e as [a | l IHl r IHr | l IHl r IHr].
-  - unfold exec, all_set. rewrite query_and_map. apply map_ext. intros ev. unfold sel. simpl. reflexivity.
-  - cbn [exec]. unfold all_set.
+  - unfold exec_in, all_set. rewrite query_and_map. apply map_ext. intros ev. unfold sel_in. simpl. reflexivity.
+  - cbn [exec_in]. unfold all_set.
     destruct l as [al | l1 l2 | l1 l2]; destruct r as [ar | r1 r2 | r1 r2]; cbn [is_atom];
       rewrite ?IHl, ?IHr, ?map2_map, ?query_and_map, ?map2_map, ?query_and_map;
-      apply map_ext; intros ev; unfold sel; cbn [peval];
+      apply map_ext; intros ev; unfold sel_in; cbn [peval_in];
       repeat match goal with |- context [check_in_range ?t ?x] => generalize (check_in_range t x); intro end;
-      repeat match goal with |- context [impl_atom ?t ?x] => generalize (impl_atom t x); intro end;
-      repeat match goal with |- context [peval ?t ?x] => generalize (peval t x); intro end;
+      repeat match goal with |- context [impl_atom_in ?c ?t ?x] => generalize (impl_atom_in c t x); intro end;
+      repeat match goal with |- context [peval_in ?c ?t ?x] => generalize (peval_in c t x); intro end;
       btaut.
-  - cbn [exec]. unfold all_set.
+  - cbn [exec_in]. unfold all_set.
     destruct l as [al | l1 l2 | l1 l2]; destruct r as [ar | r1 r2 | r1 r2]; cbn [is_atom fst snd];
       rewrite ?IHl, ?IHr, ?map2_map, ?query_and_map, ?query_or_map, ?map2_map, ?query_and_map, ?query_or_map;
-      apply map_ext; intros ev; unfold sel; cbn [peval];
+      apply map_ext; intros ev; unfold sel_in; cbn [peval_in];
       repeat match goal with |- context [check_in_range ?t ?x] => generalize (check_in_range t x); intro end;
-      repeat match goal with |- context [impl_atom ?t ?x] => generalize (impl_atom t x); intro end;
-      repeat match goal with |- context [peval ?t ?x] => generalize (peval t x); intro end;
+      repeat match goal with |- context [impl_atom_in ?c ?t ?x] => generalize (impl_atom_in c t x); intro end;
+      repeat match goal with |- context [peval_in ?c ?t ?x] => generalize (peval_in c t x); intro end;
       btaut.
 Qed.
+
+Theorem exec_pointwise tr e evs : exec tr e evs = map (sel tr e) evs.
+Proof. exact (exec_in_pointwise None tr e evs). Qed.
 
 Corollary impl_select_filter e tr evs :
   impl_select e tr evs = filter (sel tr (push_not false e)) evs.
@@ -107,14 +112,14 @@ Proof. unfold impl_select. rewrite exec_pointwise. apply pick_map. Qed.
 Theorem and_is_intersection a b tr evs ev :
   In ev (impl_select (EAnd a b) tr evs) <-> In ev (impl_select a tr evs) /\ In ev (impl_select b tr evs).
 Proof.
-  rewrite !impl_select_filter, !filter_In. unfold sel. cbn [push_not peval].
+  rewrite !impl_select_filter, !filter_In. unfold sel. cbn [push_not peval peval_in].
   destruct (check_in_range tr (ev_ts ev)), (peval (push_not false a) ev), (peval (push_not false b) ev); simpl; intuition discriminate.
 Qed.
 
 Theorem or_is_union a b tr evs ev :
   In ev (impl_select (EOr a b) tr evs) <-> In ev (impl_select a tr evs) \/ In ev (impl_select b tr evs).
 Proof.
-  rewrite !impl_select_filter, !filter_In. unfold sel. cbn [push_not peval].
+  rewrite !impl_select_filter, !filter_In. unfold sel. cbn [push_not peval peval_in].
   destruct (check_in_range tr (ev_ts ev)), (peval (push_not false a) ev), (peval (push_not false b) ev); simpl; intuition discriminate.
 Qed.
 
@@ -125,7 +130,7 @@ Proof. induction l as [|x l IH]; simpl; [reflexivity|]. destruct (f x); simpl; [
 Theorem and_is_intersection_list a b tr evs :
   impl_select (EAnd a b) tr evs = impl_select b tr (impl_select a tr evs).
 Proof.
-  rewrite !impl_select_filter, filter_filter. apply filter_ext. intros ev. unfold sel. cbn [push_not peval].
+  rewrite !impl_select_filter, filter_filter. apply filter_ext. intros ev. unfold sel. cbn [push_not peval peval_in].
   destruct (check_in_range tr (ev_ts ev)), (peval (push_not false a) ev), (peval (push_not false b) ev); reflexivity.
 Qed.
 
@@ -267,21 +272,36 @@ Proof.
   rewrite IH. destruct v; try reflexivity. rewrite H. reflexivity.
 Qed.
 
+Lemma any_refines o l fs :
+  forallb (fun kv : N * stored => stored_wf (snd kv)) fs = true -> lit_wf l = true ->
+  forallb (fun kv : N * stored => cmp_guard o (snd kv) l) fs = true ->
+  existsb (fun kv : N * stored => col_in None (fst kv) && impl_cmp true o (snd kv) l) fs
+  = existsb (fun kv : N * stored => spec_cmp true o (snd kv) l) fs.
+Proof.
+  intros Hw Hl Hg. induction fs as [|[k v] fs IH]; [reflexivity|].
+  cbn [forallb existsb fst snd col_in andb] in *.
+  apply andb_true_iff in Hw, Hg. destruct Hw as [Hw1 Hw2], Hg as [Hg1 Hg2].
+  rewrite (cmp_refines_spec_guarded true o v l Hw1 Hl Hg1), IH by assumption. reflexivity.
+Qed.
+
 Lemma atom_refines neg a ev :
   ev_wf ev = true -> atom_wf a = true -> atom_guard neg a ev = true ->
   impl_atom (if neg then neg_atom a else a) ev = xorb neg (spec_atom a ev).
 Proof.
-  intros Hev Ha Hg. destruct a as [f o l ci | w n].
+  intros Hev Ha Hg. destruct a as [f o l ci | w n | o l].
   - simpl in Ha, Hg. apply andb_true_iff in Hg. destruct Hg as [Hg Hc].
     pose proof (field_wf f ev Hev) as Hf.
     destruct neg; simpl.
-    + rewrite (cmp_refines_spec_guarded ci (flip o) _ l Hf Ha Hg).
+    + unfold impl_atom; simpl. rewrite (cmp_refines_spec_guarded ci (flip o) _ l Hf Ha Hg).
       rewrite spec_cmp_flip by exact Hc. destruct (spec_cmp ci o (field f ev) l); reflexivity.
-    + rewrite (cmp_refines_spec_guarded ci o _ l Hf Ha Hg).
+    + unfold impl_atom; simpl. rewrite (cmp_refines_spec_guarded ci o _ l Hf Ha Hg).
       destruct (spec_cmp ci o (field f ev) l); reflexivity.
-  - destruct neg; simpl;
+  - destruct neg; unfold impl_atom; simpl;
       rewrite (text_fields_any_ext _ (word_occurs true w) ev) by (intros s; apply is_subword_spec);
       destruct n, (text_fields_any (word_occurs true w) ev); reflexivity.
+  - cbn [atom_guard atom_wf] in *. destruct neg; [discriminate|]. cbn [negb andb xorb] in *.
+    unfold impl_atom. cbn [impl_atom_in spec_atom].
+    rewrite (any_refines o l (ev_fields ev) Hev Ha Hg). destruct (existsb _ _); reflexivity.
 Qed.
 
 (* deMorgansLaw + record-level evaluation = the expression, negated when under an odd number
@@ -291,12 +311,12 @@ Theorem push_not_refines e : forall neg ev,
   peval (push_not neg e) ev = xorb neg (spec_eval e ev).
 Proof.
   induction e as [a | a IHa b IHb | a IHa b IHb | a IHa]; intros neg ev Hev Hw Hg; cbn [push_not spec_eval].
-  - cbn [peval]. apply atom_refines; assumption.
+  - cbn [peval peval_in]. apply atom_refines; assumption.
   - cbn [expr_wf expr_guard] in *. apply andb_true_iff in Hw, Hg. destruct Hw, Hg.
-    destruct neg; cbn [peval]; rewrite IHa, IHb by assumption;
+    destruct neg; unfold peval in *; cbn [peval_in]; rewrite IHa, IHb by assumption;
       destruct (spec_eval a ev), (spec_eval b ev); reflexivity.
   - cbn [expr_wf expr_guard] in *. apply andb_true_iff in Hw, Hg. destruct Hw, Hg.
-    destruct neg; cbn [peval]; rewrite IHa, IHb by assumption;
+    destruct neg; unfold peval in *; cbn [peval_in]; rewrite IHa, IHb by assumption;
       destruct (spec_eval a ev), (spec_eval b ev); reflexivity.
   - cbn [expr_wf expr_guard] in *. rewrite IHa by assumption.
     destruct neg, (spec_eval a ev); reflexivity.
